@@ -498,29 +498,45 @@ Proof. exact tink_verify_accepts_iff. Qed.
 Print Assumptions C16_tink_verify_accepts_iff.
 
 (* === "any modification of a signature is rejected", as a reduction ======= *)
-(* th_collision HS pk : F, H or T_l called with the same PK.seed and the same
-   ADRS on two DIFFERENT inputs of EQUAL POSITIVE length, equal outputs.
-   sig_switch P HS pkSeed pkRoot msg sig sig' : bool -- the LOCATED WOTS+ switch,
-   COMPUTED from the two signatures (proofs/SlhdsaForgery.v): at some hypertree
-   layer j the WOTS+ parts of the j-th XMSS blocks of sig and sig' lead to the
-   SAME WOTS+ public key although the base-w digit strings (message digits ++
-   checksum digits) of the values the two verifications sign there DIFFER.
-   Extra premises w.r.t. the first version (second audit): hash outputs are byte
-   strings (hashes_wfb) and digits_wf (len1*lg_w = 8n, 1 <= lg_w <= 25,
-   len2*lg_w <= 32; the twelve sets satisfy it), so that equal digit strings of
-   n-byte values mean equal values.
-   Two accepted (message, signature) pairs under one public key whose digests
-   select the same FORS indices / tree / leaf have the same body SIG_FORS || SIG_HT,
-   or the located switch is true of them, or a same-tweak collision exists. *)
+(* BOTH events of the reductions are LOCATED: booleans computed from the two given
+   signatures (proofs/SlhdsaForgery.v).  Unlocated existentials are free -- "there
+   exist x <> y with F/H/T_l(x) = (y)" by pigeonhole under the output laws (third
+   audit), "there exist two WOTS+ signatures ..." for the holder of the chain
+   starts (C16_unlocated_switch_would_be_free) -- and would make the theorems say
+   nothing.
+   located_collision P HS pkSeed pkRoot msg sig sig' : the traces (function among
+   F/H/T_l, ADRS, input) of the verifications of sig and of sig' (for the selectors
+   of (msg, sig)) contain two calls of the SAME function with the SAME ADRS on
+   DIFFERENT inputs of EQUAL length with EQUAL outputs (C16_located_collision_meaning).
+   sig_switch P HS pkSeed pkRoot msg sig sig' : at some hypertree layer the WOTS+
+   parts of the XMSS blocks of sig and sig' lead to the SAME WOTS+ public key
+   although the base-w digit strings (message digits ++ checksum digits) of the
+   values the two verifications sign there DIFFER.
+   Premises: hashes_ok (output lengths), params_wf, hashes_wfb (outputs are byte
+   strings), digits_wf (len1*lg_w = 8n, 1 <= lg_w <= 25, len2*lg_w <= 32; the twelve
+   sets satisfy it).
+   Two accepted (message, signature) pairs under one public key whose digests select
+   the same FORS indices / tree / leaf have the same body SIG_FORS || SIG_HT, or the
+   located switch is true of them, or the located collision is true of them. *)
 Theorem C16_two_accepted_signatures_reduction :
   forall P HS, hashes_ok P HS -> params_wf P -> hashes_wfb HS -> digits_wf P ->
   forall pkSeed pkRoot msg sig msg' sig',
     verifyInternal P HS pkSeed pkRoot msg sig = true ->
     verifyInternal P HS pkSeed pkRoot msg' sig' = true ->
     selectors P HS pkSeed pkRoot msg sig = selectors P HS pkSeed pkRoot msg' sig' ->
-    sig_body P sig = sig_body P sig' \/ sig_switch P HS pkSeed pkRoot msg sig sig' = true \/ th_collision HS pkSeed.
+    sig_body P sig = sig_body P sig' \/ sig_switch P HS pkSeed pkRoot msg sig sig' = true
+    \/ located_collision P HS pkSeed pkRoot msg sig sig' = true.
 Proof. exact two_accepted_signatures. Qed.
 Print Assumptions C16_two_accepted_signatures_reduction.
+
+(* what located_collision = true says (the two entries are IN the two traces) *)
+Theorem C16_located_collision_meaning :
+  forall P HS pkSeed pkRoot msg sig sig', located_collision P HS pkSeed pkRoot msg sig sig' = true ->
+  let sel := selectors P HS pkSeed pkRoot msg sig in
+  exists k ad x y, In (k, ad, x) (sig_trace P HS pkSeed sel sig) /\ In (k, ad, y) (sig_trace P HS pkSeed sel sig') /\
+    x <> y /\ length x = length y /\ (0 < length x)%nat /\ call_out HS pkSeed (k, ad, x) = call_out HS pkSeed (k, ad, y).
+Proof. intros P HS pkSeed pkRoot msg sig sig' H. exact (cb_sound HS pkSeed _ _ H). Qed.
+Print Assumptions C16_located_collision_meaning.
 
 (* same key, same message, same randomizer R, different signature, both accepted *)
 Theorem C16_modified_signature_reduction :
@@ -528,18 +544,19 @@ Theorem C16_modified_signature_reduction :
   (forall pkSeed pkRoot msg sig sig',
      verifyInternal P HS pkSeed pkRoot msg sig = true -> verifyInternal P HS pkSeed pkRoot msg sig' = true ->
      firstn (p_n P) sig = firstn (p_n P) sig' -> sig <> sig' ->
-     sig_switch P HS pkSeed pkRoot msg sig sig' = true \/ th_collision HS pkSeed) /\
+     sig_switch P HS pkSeed pkRoot msg sig sig' = true \/ located_collision P HS pkSeed pkRoot msg sig sig' = true) /\
   (forall pk msg ctx sig sig',
      verify P HS pk msg sig ctx = Some true -> verify P HS pk msg sig' ctx = Some true ->
      firstn (p_n P) sig = firstn (p_n P) sig' -> sig <> sig' ->
      sig_switch P HS (firstn (p_n P) pk) (skipn (p_n P) pk) (wrap_msg msg ctx) sig sig' = true
-     \/ th_collision HS (firstn (p_n P) pk)) /\
+     \/ located_collision P HS (firstn (p_n P) pk) (skipn (p_n P) pk) (wrap_msg msg ctx) sig sig' = true) /\
   (forall tv id pk msg sig sig',
      tink_verify P HS tv id pk msg sig = Some true -> tink_verify P HS tv id pk msg sig' = Some true ->
      firstn (length (tink_prefix tv id) + p_n P) sig = firstn (length (tink_prefix tv id) + p_n P) sig' -> sig <> sig' ->
      sig_switch P HS (firstn (p_n P) pk) (skipn (p_n P) pk) (wrap_msg msg [])
        (skipn (length (tink_prefix tv id)) sig) (skipn (length (tink_prefix tv id)) sig') = true
-     \/ th_collision HS (firstn (p_n P) pk)).
+     \/ located_collision P HS (firstn (p_n P) pk) (skipn (p_n P) pk) (wrap_msg msg [])
+       (skipn (length (tink_prefix tv id)) sig) (skipn (length (tink_prefix tv id)) sig') = true).
 Proof.
   intros P HS OK PW WB DW. split; [exact (modified_signature_accepted P HS OK PW WB DW)|].
   split; [exact (verify_modified_signature P HS OK PW WB DW)|exact (tink_verify_modified_signature P HS OK PW WB DW)].
@@ -560,30 +577,33 @@ Theorem C16_twelve_sets_modified_signature_reduction :
   forall pkSeed pkRoot msg sig sig',
     verifyInternal P HS pkSeed pkRoot msg sig = true -> verifyInternal P HS pkSeed pkRoot msg sig' = true ->
     firstn (p_n P) sig = firstn (p_n P) sig' -> sig <> sig' ->
-    sig_switch P HS pkSeed pkRoot msg sig sig' = true \/ th_collision HS pkSeed.
+    sig_switch P HS pkSeed pkRoot msg sig sig' = true \/ located_collision P HS pkSeed pkRoot msg sig sig' = true.
 Proof. exact twelve_sets_modified_signature. Qed.
 Print Assumptions C16_twelve_sets_modified_signature_reduction.
 
-(* what a located switch is: at the layer j where it occurs, with M, M' the two
-   values signed there (digit strings m, m'), the WOTS+ parts of the two j-th XMSS
-   blocks are related by chain walking IN BOTH DIRECTIONS: at some chain i the
-   value of sig' is the image of the value of sig under m'_i - m_i >= 1 applications
-   of F, and at some chain i' the value of sig is the image of the value of sig'
-   under m_i' - m'_i' >= 1 applications (or there is a collision).  Neither
-   signature's WOTS+ part can be obtained from the other by applying F forward. *)
+(* what a located switch is, at the place that sig_switch_find COMPUTES (layer j,
+   WOTS+ address (l, t, kp), the two values M, M' signed there) and at the chains
+   that first_lt COMPUTES (the first chain where the digit of M is below that of M',
+   and the first where it is above): the WOTS+ parts of the two j-th XMSS blocks
+   are related by chain walking IN BOTH DIRECTIONS (`walks`): at chain i the value
+   of sig' is the image of the value of sig under m'_i - m_i >= 1 applications of F,
+   and at chain i' the value of sig is the image of the value of sig' under
+   m_i' - m'_i' >= 1 applications -- or the located collision is true.  Both
+   searches succeed whenever sig_switch is true (the digit strings form an
+   antichain); sig_switch_find = None exactly when sig_switch = false. *)
 Theorem C16_located_switch_is_chain_walking_both_ways :
   forall P HS, hashes_ok P HS -> params_wf P -> digits_wf P ->
   forall pkSeed pkRoot msg sig sig',
     length sig = sig_len P -> length sig' = sig_len P ->
-    sig_switch P HS pkSeed pkRoot msg sig sig' = true ->
-    th_collision HS pkSeed \/ exists j l t kp M M', (j < p_d P)%nat /\
+    match sig_switch_find P HS pkSeed pkRoot msg sig sig' with
+    | None => sig_switch P HS pkSeed pkRoot msg sig sig' = false
+    | Some (j, l, t, kp, M, M') =>
+      sig_switch P HS pkSeed pkRoot msg sig sig' = true /\ (j < p_d P)%nat /\
       let X := gchunk (xmssSigSize P) j (sig_ht P sig) in let X' := gchunk (xmssSigSize P) j (sig_ht P sig') in
-      (exists i, (i < p_len P)%nat /\
-         let m := nth i (wotsChecksum P M) 0 in let m' := nth i (wotsChecksum P M') 0 in
-         m < m' /\ chunk P i X' = chainS HS l t kp (N.of_nat i) pkSeed (chunk P i X) m (N.to_nat (m' - m))) /\
-      (exists i, (i < p_len P)%nat /\
-         let m := nth i (wotsChecksum P M) 0 in let m' := nth i (wotsChecksum P M') 0 in
-         m' < m /\ chunk P i X = chainS HS l t kp (N.of_nat i) pkSeed (chunk P i X') m' (N.to_nat (m - m'))).
+      exists i i', first_lt (wotsChecksum P M) (wotsChecksum P M') = Some i /\
+                   first_lt (wotsChecksum P M') (wotsChecksum P M) = Some i' /\ (i < p_len P)%nat /\ (i' < p_len P)%nat /\
+        (walks P HS pkSeed l t kp M M' X X' i i' \/ located_collision P HS pkSeed pkRoot msg sig sig' = true)
+    end.
 Proof. intros P HS OK PW DW. exact (sig_switch_walk P HS OK PW DW). Qed.
 Print Assumptions C16_located_switch_is_chain_walking_both_ways.
 
@@ -596,7 +616,7 @@ Theorem C16_wots_digit_strings_are_an_antichain :
 Proof. exact checksum_antichain. Qed.
 Print Assumptions C16_wots_digit_strings_are_an_antichain.
 
-(* why the event is LOCATED: without reference to the two given signatures,
+(* why the switch is LOCATED: without reference to the two given signatures,
    "two WOTS+ signatures on values with different digits and the same WOTS+ public
    key" exist for EVERY hash family and every two values (the holder of the chain
    start values signs both) -- such a disjunct would be true for free *)
@@ -607,42 +627,56 @@ Theorem C16_unlocated_switch_would_be_free :
 Proof. exact unlocated_switch_is_free. Qed.
 Print Assumptions C16_unlocated_switch_would_be_free.
 
-(* === modifications that change the FORS indices: the target-subset event === *)
-(* A changed message (or R) changes the digest.  When the new digest still selects
-   the same hypertree leaf (idx_tree, idx_leaf) but ARBITRARY other FORS indices
-   ind', two accepted pairs under one key have equal hypertree parts and, for EVERY
-   FORS tree i (tree_consistent):
-     ind_i = ind'_i and the same revealed secret value and authentication path, or
-     ind_i <> ind'_i and the two openings CROSS at some height kk < a: the node the
-     second signature computes from ITS revealed leaf and ITS lower authentication
-     nodes equals the first signature's authentication node at height kk, and vice
-     versa, and the authentication nodes above kk coincide;
-   or the located WOTS+ switch is true of the pair, or a same-tweak collision exists.
-   So every one of the k indices of the second digest lands on a leaf consistent
-   with the FORS trees the first signature commits to: with the first signature
-   genuine, the second one had to reveal values hashing to the true subtree nodes
-   (the PRF-derived secrets, or second preimages).  Not covered: digests that select
-   another (idx_tree, idx_leaf); that case stays checked by the correspondence only. *)
-Theorem C16_changed_fors_indices_target_subset_reduction :
+(* === modifications that change the digest: the target-subset event ======= *)
+(* For a key pair generated from (SK.seed, PK.seed): ANY signature sig' accepted for
+   a message msg is compared with genuine_sig = the signature Algorithm 19 produces
+   for msg once its randomizer is fixed to R' = sig'[0:n] (signInternal is genuine_sig
+   at R = PRF_msg(...), C16_signInternal_is_genuine_sig).  Both verify for the same
+   digest, hence sig' has the GENUINE body, or the located switch / the located
+   collision is true of (genuine_sig, sig').  No earlier signature appears, and the
+   digest may select any hypertree leaf. *)
+Theorem C16_accepted_signature_vs_key_holders_signature :
   forall P HS, hashes_ok P HS -> params_wf P -> hashes_wfb HS -> digits_wf P ->
-  forall pkSeed pkRoot msg sig msg' sig' md md' it il,
-    verifyInternal P HS pkSeed pkRoot msg sig = true ->
-    verifyInternal P HS pkSeed pkRoot msg' sig' = true ->
-    split_digest P (hHMsg HS (firstn (p_n P) sig) pkSeed pkRoot msg) = (md, it, il) ->
-    split_digest P (hHMsg HS (firstn (p_n P) sig') pkSeed pkRoot msg') = (md', it, il) ->
-    let ind := base2b md (p_a P) (p_k P) in
-    let ind' := base2b md' (p_a P) (p_k P) in
-    (sig_ht P sig = sig_ht P sig' /\
-     fors_consistent P HS pkSeed 0 it il ind ind' (sig_fors P sig) (sig_fors P sig'))
-    \/ ht_switch P HS pkSeed (sig_ht P sig) (sig_ht P sig') it il
-         (forsPkFromSigS P HS 0 it il ind (sig_fors P sig) pkSeed)
-         (forsPkFromSigS P HS 0 it il ind' (sig_fors P sig') pkSeed) = true
-    \/ th_collision HS pkSeed.
-Proof. exact two_accepted_same_leaf. Qed.
-Print Assumptions C16_changed_fors_indices_target_subset_reduction.
+  forall skSeed pkSeed msg sig',
+    let pkRoot := keygenRoot P HS skSeed pkSeed in
+    verifyInternal P HS pkSeed pkRoot msg sig' = true ->
+    let g := genuine_sig P HS skSeed pkSeed pkRoot msg (firstn (p_n P) sig') in
+    sig_body P g = sig_body P sig' \/ sig_switch P HS pkSeed pkRoot msg g sig' = true
+    \/ located_collision P HS pkSeed pkRoot msg g sig' = true.
+Proof. exact accepted_vs_genuine. Qed.
+Print Assumptions C16_accepted_signature_vs_key_holders_signature.
 
-(* the underlying fact: two openings of one Merkle tree at different leaves with the
-   same root cross (or collide) *)
+(* ... and having the genuine body means: for each of the k FORS indices the digest
+   of (R', msg) selects, sig' reveals exactly the secret PRF(PK.seed, SK.seed, FORS_PRF
+   address of that leaf) (and the key holder's authentication paths and hypertree
+   signature).  So a forger without a switch or a collision needs, for ALL k indices
+   of its digest, secret values it can only have from earlier signatures whose digests
+   selected the same leaves: the target-subset event of H_msg, explicitly. *)
+Theorem C16_genuine_body_reveals_the_prf_secrets :
+  forall P HS, hashes_ok P HS -> params_wf P ->
+  forall skSeed pkSeed msg sig' md it il,
+    let pkRoot := keygenRoot P HS skSeed pkSeed in
+    length sig' = sig_len P ->
+    split_digest P (hHMsg HS (firstn (p_n P) sig') pkSeed pkRoot msg) = (md, it, il) ->
+    sig_body P (genuine_sig P HS skSeed pkSeed pkRoot msg (firstn (p_n P) sig')) = sig_body P sig' ->
+    sig_fors P sig' = forsSignS P HS 0 it il (base2b md (p_a P) (p_k P)) skSeed pkSeed /\
+    sig_ht P sig' = htSignS P HS (forsPkS P HS 0 it il skSeed pkSeed) skSeed pkSeed it il /\
+    forall i, (i < p_k P)%nat ->
+      fors_sk P i (sig_fors P sig')
+      = hPrf HS pkSeed skSeed (mkA 0 it T_FORSPRF il 0 (forsLeafIdx P i (nth i (base2b md (p_a P) (p_k P)) 0))).
+Proof. exact genuine_body_reveals_prf_secrets. Qed.
+Print Assumptions C16_genuine_body_reveals_the_prf_secrets.
+
+Theorem C16_signInternal_is_genuine_sig :
+  forall P HS, hashes_ok P HS -> forall skSeed skPrf pkSeed pkRoot msg addrnd,
+    signInternal P HS skSeed skPrf pkSeed pkRoot msg addrnd
+    = genuine_sig P HS skSeed pkSeed pkRoot msg (hPrfMsg HS skPrf addrnd msg).
+Proof. exact signInternal_genuine. Qed.
+Print Assumptions C16_signInternal_is_genuine_sig.
+
+(* the Merkle fact behind "consistent leaves": two openings of one tree at different
+   leaves with the same root cross (the node one computes is an authentication node of
+   the other), or the two climbs contain a located collision *)
 Theorem C16_two_merkle_openings_cross :
   forall P HS, hashes_ok P HS -> forall pk mkad cnt tidx1 idx1 auth1 node1 tidx2 idx2 auth2 node2,
     length node1 = p_n P -> length node2 = p_n P ->
@@ -651,7 +685,8 @@ Theorem C16_two_merkle_openings_cross :
     (forall j, (j < cnt)%nat -> N.land (N.shiftr idx2 (N.of_nat j)) 1 = N.land (N.shiftr tidx2 (N.of_nat j)) 1) ->
     N.shiftr tidx1 (N.of_nat cnt) = N.shiftr tidx2 (N.of_nat cnt) -> tidx1 <> tidx2 ->
     climbS P HS mkad cnt 0 tidx1 idx1 auth1 pk node1 = climbS P HS mkad cnt 0 tidx2 idx2 auth2 pk node2 ->
-    th_collision HS pk \/ exists kk, (kk < cnt)%nat /\
+    cb HS pk (tr_climb P HS pk mkad cnt 0 tidx1 idx1 auth1 node1) (tr_climb P HS pk mkad cnt 0 tidx2 idx2 auth2 node2) = true
+    \/ exists kk, (kk < cnt)%nat /\
       N.land (N.shiftr tidx1 (N.of_nat kk)) 1 <> N.land (N.shiftr tidx2 (N.of_nat kk)) 1 /\
       climbS P HS mkad kk 0 tidx1 idx1 auth1 pk node1 = chunk P kk auth2 /\
       climbS P HS mkad kk 0 tidx2 idx2 auth2 pk node2 = chunk P kk auth1 /\
@@ -714,13 +749,12 @@ Proof.
   split; [reflexivity|]. vm_compute. repeat split.
 Qed.
 
-(* premises of the modified-signature reduction are inhabited, and its
-   conclusion is then a REAL collision: on the toy family (16-bit outputs) the
-   genuine signature with its last two bytes 147,124 replaced by 148,93 is
-   accepted too (same key, same message, same R); the located switch is FALSE
-   of this pair (the event is refutable, not free), and the two verifications
-   call H at the top of the hypertree (layer 1, tree 0, height 2, index 0) on two
-   different 4-byte inputs with the same 2-byte output, the public root. *)
+(* premises of the modified-signature reduction are inhabited, and on this pair the
+   LOCATED COLLISION is true while the located switch is false: on the toy family
+   (16-bit outputs) the genuine signature with its last two bytes 147,124 replaced by
+   148,93 is accepted too (same key, same message, same R); the two verifications call H
+   at the top of the hypertree (layer 1, tree 0, height 2, index 0) on two different
+   4-byte inputs with the same 2-byte output, the public root. *)
 Example C16_modified_signature_nonvacuous :
   hashes_ok toyP toyHS /\ params_wf toyP /\ hashes_wfb toyHS /\ digits_wf toyP /\
   let sk := keygen toyP toyHS [1; 2] [3; 4] [5; 6] in
@@ -731,23 +765,27 @@ Example C16_modified_signature_nonvacuous :
   verifyInternal toyP toyHS [5; 6] root [9; 9; 9] sig' = true /\
   firstn (p_n toyP) sig = firstn (p_n toyP) sig' /\ sig <> sig' /\
   sig_switch toyP toyHS [5; 6] root [9; 9; 9] sig sig' = false /\
+  located_collision toyP toyHS [5; 6] root [9; 9; 9] sig sig' = true /\
   let ad := mkA 1 0 T_TREE 0 2 0 in
   let x := [147; 124; 119; 44] in
   let y := [148; 93; 119; 44] in
-  x <> y /\ length x = length y /\ (0 < length x)%nat /\ hH toyHS [5; 6] ad x = hH toyHS [5; 6] ad y
-  /\ hH toyHS [5; 6] ad x = root.
+  x <> y /\ length x = length y /\ hH toyHS [5; 6] ad x = hH toyHS [5; 6] ad y /\ hH toyHS [5; 6] ad x = root /\
+  In (KH, ad, x) (sig_trace toyP toyHS [5; 6] (selectors toyP toyHS [5; 6] root [9; 9; 9] sig) sig) /\
+  In (KH, ad, y) (sig_trace toyP toyHS [5; 6] (selectors toyP toyHS [5; 6] root [9; 9; 9] sig) sig').
 Proof.
   split; [constructor; intros; reflexivity|]. split; [split; [reflexivity|apply le_S, le_n]|].
   split; [constructor; intros; apply toy_mix_wfb|].
   split; [unfold digits_wf; vm_compute; repeat split; repeat constructor|].
-  vm_compute. repeat split; try discriminate. apply le_S, le_S, le_S, le_n.
+  vm_compute. repeat split; try discriminate; repeat (try (left; reflexivity); right).
 Qed.
 
-(* ... and the located switch is TRUE of another accepted pair: the holder of the
+(* ... and on another accepted pair the LOCATED SWITCH is true while the located
+   collision is FALSE (each event is refutable; neither is free): the holder of the
    secret seed replaces the FORS part by a FORS signature for other indices (which
-   verification maps to another FORS public key M0') and the layer-0 WOTS+ part by
-   its WOTS+ signature of M0'; the result is accepted for the same key, message and
-   R, differs from the genuine signature, and sig_switch finds the switch. *)
+   verification maps to another FORS public key M0') and the layer-0 WOTS+ part by its
+   WOTS+ signature of M0'; the result is accepted for the same key, message and R,
+   differs from the genuine signature, and sig_switch_find locates the switch at layer 0
+   between the values [146;184] and [80;10]. *)
 Example C16_located_switch_nonvacuous :
   let sk := keygen toyP toyHS [1; 2] [3; 4] [5; 6] in
   let root := skipn 6 sk in
@@ -762,25 +800,23 @@ Example C16_located_switch_nonvacuous :
   verifyInternal toyP toyHS [5; 6] root [9; 9; 9] sig = true /\
   verifyInternal toyP toyHS [5; 6] root [9; 9; 9] sig' = true /\
   firstn (p_n toyP) sig = firstn (p_n toyP) sig' /\ sig <> sig' /\
-  sig_switch toyP toyHS [5; 6] root [9; 9; 9] sig sig' = true.
+  sig_switch toyP toyHS [5; 6] root [9; 9; 9] sig sig' = true /\
+  located_collision toyP toyHS [5; 6] root [9; 9; 9] sig sig' = false /\
+  sig_switch_find toyP toyHS [5; 6] root [9; 9; 9] sig sig' = Some (0%nat, 0, 3, 0, [146; 184], [80; 10]).
 Proof. vm_compute. repeat split; discriminate. Qed.
 
-(* premises of the target-subset reduction are inhabited by a non-trivial instance:
-   the genuine toy signatures of [9;9;9] and [9;9;7] are both accepted, their digests
-   select the same hypertree leaf (3, 0) but the FORS indices [1;1] and [0;2]; the
-   hypertree parts coincide, the FORS parts differ, and there is no located switch
-   (so the first disjunct -- crossing openings in both FORS trees -- is what holds) *)
-Example C16_target_subset_nonvacuous :
-  let sk := keygen toyP toyHS [1; 2] [3; 4] [5; 6] in
-  let root := skipn 6 sk in
+(* the key holder's signature for the randomizer of an accepted signature: on the genuine
+   toy signature itself the first disjunct holds (bodies equal) and the revealed FORS values
+   are the PRF secrets; on the modified one above the located collision is what holds *)
+Example C16_accepted_vs_genuine_nonvacuous :
+  let root := keygenRoot toyP toyHS [1; 2] [5; 6] in
   let sig := signInternal toyP toyHS [1; 2] [3; 4] [5; 6] root [9; 9; 9] [8; 8] in
-  let sig' := signInternal toyP toyHS [1; 2] [3; 4] [5; 6] root [9; 9; 7] [8; 8] in
-  verifyInternal toyP toyHS [5; 6] root [9; 9; 9] sig = true /\
-  verifyInternal toyP toyHS [5; 6] root [9; 9; 7] sig' = true /\
-  selectors toyP toyHS [5; 6] root [9; 9; 9] sig = ([1; 1], 3, 0) /\
-  selectors toyP toyHS [5; 6] root [9; 9; 7] sig' = ([0; 2], 3, 0) /\
-  sig_ht toyP sig = sig_ht toyP sig' /\ sig_fors toyP sig <> sig_fors toyP sig' /\
-  ht_switch toyP toyHS [5; 6] (sig_ht toyP sig) (sig_ht toyP sig') 3 0
-    (forsPkFromSigS toyP toyHS 0 3 0 [1; 1] (sig_fors toyP sig) [5; 6])
-    (forsPkFromSigS toyP toyHS 0 3 0 [0; 2] (sig_fors toyP sig') [5; 6]) = false.
+  let g := genuine_sig toyP toyHS [1; 2] [5; 6] root [9; 9; 9] (firstn 2 sig) in
+  let sig' := firstn 64 sig ++ [148; 93] in
+  verifyInternal toyP toyHS [5; 6] root [9; 9; 9] sig = true /\ g = sig /\
+  fors_sk toyP 0 (sig_fors toyP sig) = hPrf toyHS [5; 6] [1; 2] (mkA 0 3 T_FORSPRF 0 0 (forsLeafIdx toyP 0 1)) /\
+  verifyInternal toyP toyHS [5; 6] root [9; 9; 9] sig' = true /\
+  genuine_sig toyP toyHS [1; 2] [5; 6] root [9; 9; 9] (firstn 2 sig') = sig /\
+  sig_body toyP sig <> sig_body toyP sig' /\
+  located_collision toyP toyHS [5; 6] root [9; 9; 9] sig sig' = true.
 Proof. vm_compute. repeat split; discriminate. Qed.
